@@ -92,7 +92,9 @@ def strat_plots(draw, tier="quick"):
         specs.append(spec)
     panel = "none" if t == "unbinned" else draw(st.sampled_from(["none", "ratio", "residual", "pull"]))
     return {"type": t, "specs": specs, "panel": panel, "asym": asym, "separate": draw(st.booleans()) if n_fits > 1 else False, "x_log": draw(st.sampled_from([False, False, True])),
-            "y_log": draw(st.sampled_from([False, False, False, True]))}
+            "y_log": draw(st.sampled_from([False, False, False, True])),
+            # plot again with the *same* Plot object after the fits changed (one more parameter fixed where it is, fitted again)
+            "replot": draw(st.sampled_from([False, False, True]))}
 
 
 # ---------------------------------------------------------------------------------------------------
@@ -142,12 +144,12 @@ def _degenerate(bars):
     return [seg for kind, seg in bars if kind == "0"]
 
 
-def _check_errorbar(tag, eb, x, y, xerr, yerr, y_lo=None, y_hi=None, check_x_bars=True):
+def _check_errorbar(tag, eb, x, y, xerr, yerr, y_lo=None, y_hi=None, check_x_bars=True, y_scale=None):
     """markers at (x, y); horizontal bars x -+ xerr (if xerr is not None); vertical bars y -+ yerr or [y_lo, y_hi]"""
     if type(eb).__name__ != "ErrorbarContainer":
         raise Violation(f"{tag}:artist", f"expected error bars, found {type(eb).__name__}")
     mx, my, bars = _errorbar_parts(eb)
-    sc_x, sc_y = float(np.max(np.abs(x))) + 1e-300, float(np.max(np.abs(y))) + 1e-300
+    sc_x, sc_y = float(np.max(np.abs(x))) + 1e-300, max(float(np.max(np.abs(y))), y_scale or 0.0) + 1e-300  # y_scale: size of the terms a difference was formed from
     if mx is None or not _eq(mx, x, scale=sc_x) or not _eq(my, y, scale=sc_y):
         raise Violation(f"{tag}:markers", f"markers at x={None if mx is None else mx.tolist()} y={None if my is None else my.tolist()}, expected x={np.asarray(x).tolist()} y={np.asarray(y).tolist()}")
     if any(k_ == "?" for k_, _ in bars):
@@ -488,10 +490,11 @@ def _check_fit(i, spec, fit, res, axes, case, e):
         if panel == "ratio":
             _check_errorbar(ptag, art, e["x"], d / m, e["sig_x"], np.abs(s / m) if e["has_y"] else None)
         elif panel == "residual":
-            _check_errorbar(ptag, art, e["x"], d - m, e["sig_x"], s if e["has_y"] else None)
+            _check_errorbar(ptag, art, e["x"], d - m, e["sig_x"], s if e["has_y"] else None, y_scale=float(max(np.max(np.abs(d)), np.max(np.abs(m)))))
         else:
             pull = (d - m) / s
-            _check_errorbar(ptag, art, e["x"], pull, None, None, y_lo=np.minimum(pull, 0.0), y_hi=np.maximum(pull, 0.0), check_x_bars=False)
+            _check_errorbar(ptag, art, e["x"], pull, None, None, y_lo=np.minimum(pull, 0.0), y_hi=np.maximum(pull, 0.0), check_x_bars=False,
+                            y_scale=float(max(np.max(np.abs(d)), np.max(np.abs(m))) / np.min(np.abs(s))))
         if t == "xy" and panel in ("ratio", "residual") and "band" in e:
             b = pan.get(panel + "_error_band")
             if b is None:
@@ -532,6 +535,9 @@ def run_plots(case):
             raise Discard("fit without a valid result (uncertainty 0 reported for a free parameter: C05/C15's subject, cf. KF-C15-3)")
         if case["asym"] and not np.all(np.isfinite(np.asarray(fit.asymmetric_parameter_errors, float))):
             raise Discard("no valid asymmetric errors")
+        _ev = np.linalg.eigvalsh(np.asarray(cov, float))
+        if _ev.min() < -1e-9 * max(_ev.max(), 1e-300):
+            raise Discard("fit without a valid result (reported parameter covariance matrix is not positive semi-definite: C05/C07's subject; its propagation is NaN in places)")
         fits.append(fit)
     exps = [_expected(s, f) for s, f in zip(specs, fits)]
     # options that need positive coordinates
@@ -553,23 +559,58 @@ def run_plots(case):
             kw[case["panel"]] = True
         with guard(f"Plot.plot[{t}:{case['panel']}]"):
             results = plot.plot(asymmetric_parameter_errors=case["asym"], **kw)
-        for i, (spec, fit, e_) in enumerate(zip(specs, fits, exps)):
-            fi = i if case["separate"] else 0
-            # the fit's numbers did not move while plotting
-            p_now = [float(v) for v in fit.parameter_values]
-            if p_now != [e_["p"][nm] for nm in e_["names"]]:
-                e_ = _expected(spec, fit)
-            _check_fit(i, spec, fit, results[fi], plot.axes[fi], case, e_)
-            texts = _info_texts(plot.figures[fi])
-            k_ = 0 if case["separate"] else i
-            if len(texts) <= k_:
-                raise Violation(f"{t}:legend-info-missing", f"{len(texts)} info texts for {len(fits)} fits")
-            _check_info_text(f"{t}[{spec['cost']}]", texts[k_], fit, e_["names"], case["asym"])
+        def check_all(results, exps, stage=""):
+            # every call of plot() appends its new figure(s) to plot.figures / plot.axes: the ones of this call are the last ones
+            base = len(plot.figures) - (len(fits) if case["separate"] else 1)
+            for i, (spec, fit, e_) in enumerate(zip(specs, fits, exps)):
+                fi = i if case["separate"] else 0
+                # the fit's numbers did not move while plotting
+                p_now = [float(v) for v in fit.parameter_values]
+                if p_now != [e_["p"][nm] for nm in e_["names"]]:
+                    e_ = _expected(spec, fit)
+                try:
+                    _check_fit(i, spec, fit, results[fi], plot.axes[base + fi], case, e_)
+                    texts = _info_texts(plot.figures[base + fi])
+                    k_ = 0 if case["separate"] else i
+                    if len(texts) <= k_:
+                        raise Violation(f"{t}:legend-info-missing", f"{len(texts)} info texts for {len(fits)} fits")
+                    _check_info_text(f"{t}[{spec['cost']}]", texts[k_], fit, e_["names"], case["asym"])
+                except Violation as v:
+                    if stage:
+                        raise Violation(f"{stage}:{v.facet}", f"{stage}: {v.detail}", v.observed, v.expected)
+                    raise
+
+        check_all(results, exps)
+        replotted = False
+        if case.get("replot"):
+            changed = False
+            for spec, fit in zip(specs, fits):
+                free = [nm for nm in fit.parameter_names if nm not in fit._fitter.fixed_parameters]
+                if len(free) < 2:
+                    continue
+                nm = free[-1]
+                try:
+                    fit.fix_parameter(nm)
+                    spec["fixed"][nm] = float(fit.parameter_values[list(fit.parameter_names).index(nm)])
+                    fit.do_fit(asymmetric_parameter_errors=case["asym"])
+                except Exception:
+                    raise Discard("refit failed (C05/C06's subject)")
+                cov = fit.parameter_cov_mat
+                if cov is None or not np.all(np.isfinite(np.asarray(cov, float))) or not np.all(np.isfinite(np.asarray(fit.parameter_errors, float))) or \
+                        any(float(er) <= 0 for n_, er in zip(fit.parameter_names, fit.parameter_errors) if n_ not in fit._fitter.fixed_parameters) or \
+                        (case["asym"] and not np.all(np.isfinite(np.asarray(fit.asymmetric_parameter_errors, float)))):
+                    raise Discard("refit without a valid result")
+                changed = True
+            if changed:
+                with guard(f"Plot.plot[{t}:{case['panel']}:again]"):
+                    results2 = plot.plot(asymmetric_parameter_errors=case["asym"], **kw)
+                check_all(results2, [_expected(s_, f_) for s_, f_ in zip(specs, fits)], stage="second-plot-same-object")
+                replotted = True
     finally:
         plt.close("all")
     model_only = any(s["sources"] and all(s_["ref"] == "model" for s_ in s["sources"] if s_.get("enabled", True)) for s in specs)
     labels = {t, case["panel"]} | ({"model_sources_only"} if model_only else set()) | ({"several_fits"} if len(fits) > 1 else set()) | ({"separate"} if case["separate"] else set()) | ({"x_log"} if x_log else set()) | \
-        ({"y_log"} if y_log else set()) | ({"asym"} if case["asym"] else set()) | ({"poisson"} if any(e_["poisson"] for e_ in exps) else set())
+        ({"y_log"} if y_log else set()) | ({"asym"} if case["asym"] else set()) | ({"poisson"} if any(e_["poisson"] for e_ in exps) else set()) | ({"plotted_again_after_refit"} if replotted else set())
     nt = (case["panel"] != "none" or len(fits) > 1 or case["asym"] or x_log or y_log or any(e_["poisson"] for e_ in exps) or any(s["fixed"] for s in specs)
           or any(s_.get("axis") == "x" or s_["ref"] == "model" or s_["relative"] for s in specs for s_ in s["sources"]))
     return {"nontrivial": bool(nt), "labels": sorted(labels)}
